@@ -372,10 +372,12 @@ class Run:
                     v["zz_in"] = 2
                 elif isinstance(v, list):
                     v.append("zz")
-            if hd.obj.id != cid(sp) or not same(hd.obj.statepoint(), sp):
+            if hd.obj.id != cid(sp) or not same(hd.obj.statepoint(), sp) or \
+                    not same(dict(hd.obj.cached_statepoint), sp):
                 raise Mismatch("C02", "C02:open_job:aliases-caller-mapping",
                                f"after mutating the caller's mapping the handle shows id={hd.obj.id} "
-                               f"sp={hd.obj.statepoint()} (expected {cid(sp)} / {sp})")
+                               f"sp={hd.obj.statepoint()} cached_statepoint={dict(hd.obj.cached_statepoint)} "
+                               f"(expected {cid(sp)} / {sp})")
             hd.loaded = True
             self.probe("caller_mutated")
             jid = cid(sp)
@@ -1364,6 +1366,11 @@ class Run:
         try:
             self._coherence2(op)
         except Mismatch as m:
+            if self.prop == "C02":
+                # a C02 history has no state point changes: a handle that stops describing the state
+                # point it was opened with is C02's "opening is exact and unaffected by the caller"
+                raise Mismatch("C02", "C02:handle-differs:" + m.vclass.split(":", 1)[1], m.msg,
+                               "C02:handle-differs:" + m.fp.split(":", 1)[1])
             if "after a refused state point change" in m.msg:
                 raise Mismatch("C04", "C04:handle:incoherent-after-refused-change", m.msg,
                                "C04:handle:incoherent-after-refused-change")
